@@ -12,6 +12,7 @@ import (
 	"errors"
 	"fmt"
 	"math"
+	"runtime"
 	"strings"
 	"sync"
 	"sync/atomic"
@@ -252,6 +253,7 @@ func runCase(c *vkit.Case, regress bool) {
 	var finalErr error
 	finished := "" // End | error | closed
 	closeReturned := false
+	var closesAtReturn atomic.Int64 // 0 = Close has not returned; else 1 + number of source Closes completed at that moment
 	var sig strings.Builder
 	done := make(chan struct{})
 	var mu sync.Mutex
@@ -341,6 +343,7 @@ func runCase(c *vkit.Case, regress bool) {
 			}
 		}
 		s.Close()
+		closesAtReturn.Store(src.Closes.Load() + 1) // sampled at the very return of Close ("having ... closed the source")
 		mu.Lock()
 		closeReturned = true
 		if finished == "" {
@@ -472,6 +475,11 @@ func runCase(c *vkit.Case, regress bool) {
 		}
 	}
 	// after Close: source closed exactly once, never used after, goroutines gone
+	r.Eval(1)
+	if closesAtReturn.Load() == 1 {
+		bad("close-returned-before-source-closed", "Close returned while the source had not been closed yet (its Close was still to come or in progress)")
+		return
+	}
 	if m := src.Misuse(true); m != "" {
 		bad("source-close", "after Close returned: "+m)
 		return
@@ -512,7 +520,14 @@ func (e *endStamper) Next(ctx context.Context) (int, error) {
 	return e.inner.Next(ctx)
 }
 
-func (e *endStamper) Close() { e.inner.Close() }
+func (e *endStamper) Close() {
+	// a Close that takes a moment: whoever has to wait for it must really wait
+	runtime.Gosched()
+	if e.endAt%2 == 1 {
+		time.Sleep(100 * time.Microsecond)
+	}
+	e.inner.Close()
+}
 
 // timerEdge: the consumer arrives while the batcher is inside a slow full() call on a non-first
 // item; full() returns false a swept few microseconds before / after the batch turns maxWait old;
